@@ -777,12 +777,6 @@ func (p *Process) getState() *types.ProcessState {
 	return &state
 }
 
-// getStatePtr returns the state object itself (it is handed on from one
-// instance of a process to the next)
-func (p *Process) getStatePtr() *types.ProcessState {
-	return p.procState
-}
-
 type filterFn func(*types.ProcessState)
 
 func (p *Process) getStateData(filter filterFn) {
